@@ -85,6 +85,11 @@ def simulate(args):
             for i in range(s.n_intervals):
                 power_fix_load_list[i] = max(power_fix_load_list[i], 0)
 
+            # price timeseries is reported in ct/kWh, cost calculation expects EUR/kWh
+            price_list = timeseries.get("price [ct/kWh]")
+            if price_list is not None:
+                price_list = [p / 100 for p in price_list]
+
             # Calculate costs
             costs = calculate_costs(
                 cc_type=cc_type,
@@ -93,7 +98,7 @@ def simulate(args):
                 interval=s.interval,
                 timestamps_list=timeseries.get("time"),
                 power_grid_supply_list=timeseries.get("grid supply [kW]"),
-                price_list=timeseries.get("price [EUR/kWh]"),
+                price_list=price_list,
                 power_fix_load_list=power_fix_load_list,
                 power_generation_feed_in_list=timeseries.get("generation feed-in [kW]"),
                 power_v2g_feed_in_list=timeseries.get("V2G feed-in [kW]"),
